@@ -179,3 +179,49 @@ func VH_C02_history() {
 	}
 	vassert("C02.K2.history_found_iff_predicate", (gotR == 1) == wantR && gotR <= 1 && (gotO == 1) == wantO && gotO <= 1)
 }
+
+// VH_C02_sparse: SPARSE only thins results: every object a sparse WITHIN / INTERSECTS hands out satisfies the
+// exact predicate, none is handed out twice, there are at most 4^sparse of them, and when some object satisfies
+// the predicate at least one is handed out. Two points with symbolic coordinates, a fixed query rectangle.
+//verif:cfg b_objects=2_points(symbolic_float32-representable_coordinates_in_[-20,20]) b_query=fixed_rectangle quick.b_sparse=1 thorough.b_sparse=1..2 maxwall=1200
+func VH_C02_sparse() {
+	c := New()
+	coord := func() float64 {
+		f := vnondetFloat32()
+		vassume(f >= -20 && f <= 20)
+		return float64(f)
+	}
+	a := object.New("a", geojson.NewSimplePoint(geometry.Point{X: coord(), Y: coord()}), 0, field.List{})
+	b := object.New("b", geojson.NewSimplePoint(geometry.Point{X: coord(), Y: coord()}), 0, field.List{})
+	c.Set(a)
+	c.Set(b)
+	q := geojson.NewRect(geometry.Rect{Min: geometry.Point{X: -4, Y: -2}, Max: geometry.Point{X: 12, Y: 6}})
+	sparse := uint8(1)
+	if vthorough() {
+		sparse = uint8(1 + vchoose(2))
+	}
+	within := vnondetBool()
+	var gotA, gotB int
+	iter := func(o *object.Object) bool {
+		if o == a {
+			gotA++
+		} else if o == b {
+			gotB++
+		}
+		return true
+	}
+	var wantA, wantB bool
+	if within {
+		c.Within(q, sparse, nil, nil, iter)
+		wantA, wantB = a.Geo().Within(q), b.Geo().Within(q)
+	} else {
+		c.Intersects(q, sparse, nil, nil, iter)
+		wantA, wantB = a.Geo().Intersects(q), b.Geo().Intersects(q)
+	}
+	vassert("C02.K3.sparse_never_adds_a_non_matching_object", (gotA == 0 || wantA) && (gotB == 0 || wantB))
+	vassert("C02.K3.sparse_no_duplicates", gotA <= 1 && gotB <= 1)
+	if wantA || wantB {
+		vassert("C02.K3.sparse_keeps_at_least_one_match", gotA+gotB >= 1)
+	}
+	vobs("sparse", int(sparse), within, gotA, gotB)
+}
